@@ -97,6 +97,7 @@ def run(p, led, tier):
     W = Walk(p)
     mito, walker = W.mito, W.walker
     acc = accepted_classes(walker)
+    led.level = "translation_validation"
     led.explanation = (
         "Translation validation of the definitional interpreter, node class by node class: the walker's source is "
         "abstractly interpreted (fdai) on AST nodes whose leaves are symbolic constants, every Unknown truth test "
@@ -117,6 +118,18 @@ def run(p, led, tier):
     led.rule("C02-R4", "and/or return the deciding operand with short-circuit; conditional selects by the test; chains compare adjacent pairs; containers keep order; calls pass positional and keyword arguments", 8)
     led.rule("C02-R5", "only the logic pathway post-processes the walker's value, and only with bool()", 2)
     a, b, c = Unknown("a"), Unknown("b"), Unknown("c")
+    _orig_paths = W.paths
+    counter = {"programs": 0, "paths": 0}
+
+    def _counted(node, max_paths=400):
+        r = _orig_paths(node, max_paths)
+        counter["programs"] += 1
+        counter["paths"] += len(r)
+        return r
+    W.paths = _counted
+    led.extra["programs"] = 0
+    led.extra["disagreements_checked"] = 0
+    led._c02_counter = counter
 
     # ---------------- R1 operators
     for cls, table, arity in (("BinOp", BINOPS, 2), ("UnaryOp", UNOPS, 1)):
@@ -288,6 +301,9 @@ def run(p, led, tier):
         else:
             led.ok("C02-R4", key, where(walker, walker.node), "a ** argument is refused (or passed)")
 
+    led.extra["programs"] = counter["programs"]
+    led.extra["paths_compared_with_reference"] = counter["paths"]
+    led.extra["disagreements_checked"] = sum(1 for o in led.obls if o["status"] == "failed")
     # ---------------- R2 field exhaustiveness
     param = [x for x in walker.params() if x != "self"][0]
     branches = _branches(walker, param)
